@@ -499,7 +499,28 @@ fn cloud(pts: &[P3], normals: &Option<Vec<P3>>, colors: &Option<Vec<[u8; 3]>>, t
     cx.label_if(colors.is_some(), "cloud_colors");
     let iso = t.to_iso();
     let tol = tol3(t, 40.0) + tol3(t2, 0.0);
+    // derived quantities are asked for before and after every move (bounding box, size): they belong to the points the
+    // cloud holds now
+    let box_ok = |c: &PointCloud, when: &str| -> Result<(), Failure> {
+        let bb = c.aabb();
+        for k in 0..3 {
+            let lo = c.points().iter().map(|q| q[k]).fold(f64::INFINITY, f64::min);
+            let hi = c.points().iter().map(|q| q[k]).fold(f64::NEG_INFINITY, f64::max);
+            crate::ensure_r!((bb.mins[k] - lo).abs() <= 1e-9 * (1.0 + lo.abs()) && (bb.maxs[k] - hi).abs() <= 1e-9 * (1.0 + hi.abs()), "C03/cloud/aabb_not_of_current_points", "{when}: bounding box axis {k} is [{:e},{:e}] but the points span [{lo:e},{hi:e}]", bb.mins[k], bb.maxs[k]);
+        }
+        Ok(())
+    };
+    if !p.is_empty() {
+        if let Err(f) = box_ok(&pc, "before the move") {
+            return Verdict::Fail(f);
+        }
+    }
     pc.transform(&iso);
+    if !p.is_empty() {
+        if let Err(f) = box_ok(&pc, "after the move") {
+            return Verdict::Fail(f);
+        }
+    }
     ensure!(pc.points().len() == p.len(), "C03/cloud/len", "point count changed");
     for (a, b) in p.iter().zip(pc.points().iter()) {
         ensure!((iso * a - b).norm() <= tol, "C03/cloud/points", "point not moved by T");
@@ -521,9 +542,19 @@ fn cloud(pts: &[P3], normals: &Option<Vec<P3>>, colors: &Option<Vec<[u8; 3]>>, t
     for (a, b) in p.iter().zip(back.points().iter()) {
         ensure!((a - b).norm() <= tol, "C03/cloud/inverse", "T^-1 T does not restore");
     }
+    if !p.is_empty() {
+        if let Err(f) = box_ok(&back, "after moving there and back") {
+            return Verdict::Fail(f);
+        }
+    }
     let i2 = t2.to_iso();
     let mut seq = pc.clone();
     seq.transform(&i2);
+    if !p.is_empty() {
+        if let Err(f) = box_ok(&seq, "after two moves") {
+            return Verdict::Fail(f);
+        }
+    }
     let mut comp = PointCloud::try_new(p.clone(), n.clone(), colors.clone()).unwrap();
     comp.transform(&(i2 * iso));
     for (a, b) in seq.points().iter().zip(comp.points().iter()) {
